@@ -163,7 +163,7 @@ Proof.
 Qed.
 
 (** ** No call is routed to a callee that is gone (C03) *)
-Theorem no_route_to_non_callee : forall cfg lookup now d caller req opts proc args kw oracle d' callee' o sid,
+Theorem no_route_to_non_callee_proof : forall cfg lookup now d caller req opts proc args kw oracle d' callee' o sid,
     dealer_wf lookup d ->
     call cfg lookup now d caller req opts proc args kw oracle = CallInvoked d' callee' o ->
     cget (d_bycall d) (s_id caller, req) = None ->
@@ -179,7 +179,7 @@ Proof.
   exists r. split; [exact Hr|]. split; [exact Hmem|]. intros Hno ->. eapply Hno; eauto.
 Qed.
 
-Theorem no_route_after_unregister : forall lookup d sid req regid d' mps,
+Theorem no_route_after_unregister_proof : forall lookup d sid req regid d' mps,
     dealer_wf lookup d ->
     unregister d sid req regid = (d', [(sid, RUnregistered req)], mps) ->
     dealer_wf lookup d' /\
@@ -196,7 +196,7 @@ Proof.
   inversion E; subst d1. intros rg Hr. eapply (de_gone _ _ _ _ _ Eff); eauto. discriminate.
 Qed.
 
-Theorem no_route_after_remove_session : forall lookup lookup' lk d sid,
+Theorem no_route_after_remove_session_proof : forall lookup lookup' lk d sid,
     dealer_wf lookup d -> (forall x, x <> sid -> lookup' x = lookup x) ->
     let d' := fst (fst (dealer_remove_session lk d sid)) in
     dealer_wf lookup' d' /\
@@ -264,4 +264,20 @@ Proof.
   cbn [r_dealer]. eapply dealer_wf_lookup_le; [|exact H].
   intros x s. unfold lookup0, lookup. cbn [r_meta r_clients].
   destruct (N.eqb x meta_id); [|discriminate]. intros E; inversion E; subst. exists meta_session. split; [reflexivity | lia].
+Qed.
+
+(** ** Best match, the three parts together *)
+Theorem best_match_spec_proof : forall lookup d proc,
+    dealer_wf lookup d ->
+    (forall oracle r, match_procedure d proc oracle = Some r -> best_match d proc r) /\
+    (forall r, best_match d proc r ->
+       (exists oracle, match_procedure d proc oracle = Some r) /\
+       (reg_kind r <> MWildcard -> forall oracle, match_procedure d proc oracle = Some r)) /\
+    (forall oracle, match_procedure d proc oracle = None <->
+                    (no_exact d proc /\ no_prefix d proc /\ no_wildcard d proc)).
+Proof.
+  intros lookup d proc WF. split; [|split].
+  - intros oracle r. exact (best_match_sound lookup d WF proc oracle r).
+  - exact (best_match_complete lookup d WF proc).
+  - exact (best_match_none lookup d WF proc).
 Qed.
